@@ -1057,7 +1057,17 @@ class EventBus:
         # Use handler id as key to preserve all handlers even with duplicate names
         filtered_handlers: dict[PythonIdStr, EventHandler] = {}
         for handler in applicable_handlers:
-            if self._would_create_loop(event, handler):
+            try:
+                would_create_loop = self._would_create_loop(event, handler)
+            except RuntimeError as e:
+                # Recursion guard tripped for this handler: do not run it, but record the refusal as this handler's
+                # error result instead of letting the exception escape from process_event(). Escaping left the event
+                # without any result, so it never completed: awaiting it (and wait_until_idle()) hung forever, and
+                # inside an awaiting handler the error surfaced from 'await child'.
+                logger.error(f'❌ {self} {e}')
+                event.event_result_update(handler=handler, eventbus=self, error=e)
+                continue
+            if would_create_loop:
                 continue
             else:
                 handler_id = get_handler_id(handler, self)
